@@ -9,6 +9,7 @@ import (
 	"unicode/utf8"
 	"unsafe"
 
+	"github.com/philpearl/plenc/internal/verifhook"
 	"github.com/philpearl/plenc/plenccore"
 )
 
@@ -115,7 +116,9 @@ func BuildStructCodec(p CodecBuilder, registry CodecRegistry, typ reflect.Type, 
 			wantIntern = true
 		}
 
+		verifhook.Yield("field")
 		fc, err := p.CodecForTypeRegistry(registry, sf.Type, postfix)
+		verifhook.Yield("fieldret")
 		if err != nil {
 			return nil, fmt.Errorf("failed to find codec for field %d (%s, %q) of %s. %w", i, sf.Name, postfix, typ.Name(), err)
 		}
@@ -133,6 +136,7 @@ func BuildStructCodec(p CodecBuilder, registry CodecRegistry, typ reflect.Type, 
 			field.deref = true
 		}
 	}
+	verifhook.Yield("field")
 	c.fields = c.fields[:count]
 
 	c.fieldsByIndex = make([]shortDesc, maxIndex+1)
@@ -146,6 +150,7 @@ func BuildStructCodec(p CodecBuilder, registry CodecRegistry, typ reflect.Type, 
 		}
 	}
 
+	verifhook.Yield("flush")
 	if !nested {
 		// Everything built on the way is complete now and can be shared
 		for k, pc := range pending {
